@@ -23,3 +23,6 @@ run rw12_cuts_loop C13
 run rw13_capa_nonstrict_pruning C03 C04
 run rw14_capa_no_pruning C03 C04
 run rw15_capa_last_argmax C03 C04
+run rw16_pelt_content_keyed_score_memo C02 C11   # C10 reports "no-failing-input-found": the memo attributes are outside the model's frame (see DESIGN 10.5)
+run rw17_cuts_asarray_int64 C13
+run rw18_squares_astype C01 C11 C12
